@@ -1,6 +1,7 @@
 SPECIFICATION Spec
 CONSTANTS
   SplitClose = FALSE
+  SplitRelease = FALSE
   WithForce = TRUE
 INVARIANTS TypeOK CloseOnce NoLeak HeldStaysOpen NoEarlyClose KeeperAgrees
 PROPERTIES Terminates
